@@ -106,11 +106,12 @@ def case_extrap(col, p):
     else:
         f = dadi.Numerics.make_extrap_func(model, extrap_x_l=x_l_arg)
     key_base = 'C07:make_extrap_func:k=%d' % k
+    scale = p.get('scale', 1.0)      # the whole model multiplied by a constant (1e-305: entries far below 1e-300 are ordinary numbers in log mode)
     try:
         if call == 'kw':
-            res = f(1.0, pts=list(order))
+            res = f(scale, pts=list(order))
         else:
-            res = f(1.0, list(order))
+            res = f(scale, list(order))
     except ValueError as e:
         if k > 6 or k == 0:
             col.tick(transitions=1, rejected=1)
@@ -126,7 +127,7 @@ def case_extrap(col, p):
         col.violation('C07:make_extrap_func:accepts_k=%d' % k, p, 'no ValueError for %d grid sizes' % k)
         return
     # oracle
-    ys = {pts: model_value(xmap[pts] / xunit, seed, k, deg, mode) for pts in order}
+    ys = {pts: scale * model_value(xmap[pts] / xunit, seed, k, deg, mode) for pts in order}
     xs = [xmap[pts] for pts in order]
     resd = np.ma.getdata(res) if rtype == 'spectrum' else np.asarray(res)
     ents = range(NENT)
@@ -159,12 +160,12 @@ def case_extrap(col, p):
         worst = max(worst, err / tol)
         # exactness for polynomial dependence: dyadic x's and integer coefficients make every y exact, so the
         # Lagrange value IS c_0 (linear mode)
-        if mode == 'lin' and xsrc in ('dyadic', 'tiny'):
+        if mode == 'lin' and xsrc in ('dyadic', 'tiny') and scale == 1.0:
             c0 = coeffs(seed, k, deg, e)[0]
             if ex != c0:
                 col.violation('harness:oracle', p, 'exact Lagrange %s != c0 %s' % (ex, c0))
     col.observe('value', worst)
-    col.distinct('nontrivial', (k, deg, mode, rtype, xsrc, tuple(sorted(order))))
+    col.distinct('nontrivial', (k, deg, mode, rtype, xsrc, tuple(sorted(order)), scale))
 
 
 def case_fallback(col, p):
@@ -395,6 +396,13 @@ def run(ctx):
                                 continue
                             cases.append({'kind': 'extrap', 'k': k, 'order': order, 'deg': deg, 'mode': mode,
                                           'rtype': rtype, 'call': call, 'xsrc': xsrc, 'seed': seed})
+    # the whole model scaled by 1e-305 and by 1e+290 (entries below 1e-300 / above 1e290): log mode works on logarithms, nothing special there
+    for k in range(1, 7):
+        sizes = pool[:k]
+        for order in (list(sizes), list(reversed(sizes))):
+            for scl in (1e-305, 1e290):
+                cases.append({'kind': 'extrap', 'k': k, 'order': order, 'deg': -1, 'mode': 'log', 'rtype': 'array', 'call': 'pos', 'xsrc': 'dyadic',
+                              'seed': seed, 'scale': scl})
     if not ctx.quick:
         # every k-subset of the 7-size pool (unequal node spacings), ascending and descending
         seen = set(tuple(c['order']) for c in cases)
